@@ -9,8 +9,6 @@ NumPy scalar of its kind (np.float64 / np.int64 / np.bool_).
 leaf named `plant` (or all leaves if plant == "*"), which gets the NumPy scalar.
 """
 
-from __future__ import annotations
-
 import dataclasses
 import enum
 import typing
